@@ -173,11 +173,12 @@ def main(tier, seed):
             def sched(start, end, T=T, f=f):
                 return schedules.linear_schedule(T, start, end, f)
             try:
-                l = E1(rep, sess, sched, (1.0, 0.1), f"linear_schedule[T={T},fraction={fr}]", validate_sets=[(1.0, 0.1), (-2.0, 3.0)])
+                sched(1.0, 0.1)
             except Exception as ex:
-                # a configuration the real code rejects loudly is reported as such, not as a pass
+                # a configuration the REAL code rejects loudly is reported as such, not as a pass (encoder failures propagate)
                 rep.extra.setdefault("rejected_configurations", []).append({"T": T, "fraction": str(fr), "error": f"{type(ex).__name__}: {ex}"[:200]})
                 continue
+            l = E1(rep, sess, sched, (1.0, 0.1), f"linear_schedule[T={T},fraction={fr}]", validate_sets=[(1.0, 0.1), (-2.0, 3.0)])
             if tuple(np.shape(l.outs)) != (T,):
                 rep.violation(f"linear_schedule:length", f"schedule of length {np.shape(l.outs)} for T={T}", {"T": T, "fraction": str(fr)})
                 continue
